@@ -51,14 +51,14 @@ func (s *memorySessionStore) Delete(_ context.Context, keys ...string) error {
 	return nil
 }
 
-func (s *memorySessionStore) Update(ctx context.Context, key string, value *EncryptedData) error {
-	_, err := s.Read(ctx, key)
-	if err != nil {
-		return err
-	}
-
+func (s *memorySessionStore) Update(_ context.Context, key string, value *EncryptedData) error {
 	s.lock.Lock()
 	defer s.lock.Unlock()
+
+	// check and set in one critical section, so that a concurrent Delete is never undone
+	if _, ok := s.sessions[key]; !ok {
+		return fmt.Errorf("%w: no such session: %s", ErrNotFound, key)
+	}
 
 	s.sessions[key] = value
 	return nil
